@@ -115,6 +115,9 @@ def run(ctx, selftest=False):
     # means, jitter, caps, random units) - value against ln N(y; M mu, Cs + M Lambda M^T), equal through both entry points
     gd.offlattice(ctx, "C01", 60 if quick else 1500, [("dev_ll", "OffLatticeValueIsLnNormalOfTheSpecifiedGaussian"),
                                                          ("dev_paths", "OffLatticeSameValueThroughEveryEntryPoint")])
+    # ... and where B is far from the scale of C: fewer epochs than broadly-prior'd linear parameters ("finite for every finite valid
+    # input"), against exact rational arithmetic
+    gd.offlattice_few_epochs(ctx, "C01", 48 if quick else 600)
     verdicts = ctx.validate("GaussTrace", traces + otr, timeout=3000)
     ctx.judge(traces + otr, verdicts, families=FAMILIES + ("H.",))
     if selftest or not quick:
